@@ -216,6 +216,7 @@ func (li *limInst) alphabet(level int, withZero, withHuge bool) []sample {
 		}
 		if level > 0 {
 			add(sample{rtt: 1 << 62, inflight: math.MaxInt32, drop: false, gap: 2e8})
+			add(sample{rtt: 1 << 62, inflight: 5, drop: false, gap: 0}) // stays in the window: two of them overflow its RTT sum
 			add(sample{rtt: 0, inflight: 11, drop: true, gap: 2e8})
 		}
 		return out
